@@ -260,7 +260,10 @@ fn messages(st: &mut Stats, lens: &[usize]) {
             s.states += 1;
             s.transitions += 1;
             s.nontrivial += 1;
-            let got = m.to_frame();
+            let Ok(got) = std::panic::catch_unwind(std::panic::AssertUnwindSafe(|| m.to_frame())) else {
+                s.violation(format!("Message::to_frame panicked for {}", label), || json!({"len": payload.len()}));
+                continue;
+            };
             let want = ref_encode(true, [false; 3], op, false, [0; 4], &payload);
             if got != want {
                 s.violation(format!("Message::to_frame: wrong bytes for {}", label), || json!({"len": payload.len(), "got_head": crate::report::show(&got[..got.len().min(16)]), "want_head": crate::report::show(&want[..want.len().min(16)])}));
